@@ -50,7 +50,7 @@ LEVEL_NOTE = ('Trusted: NumPy/long double, scipy.optimize (probes only; any '
               'in every case). Conjugates without closed form are certified '
               'through the exact Moreau reduction onto the primal.')
 DESIGN_REF = 'DESIGN.md section 5, C07'
-BUDGET = {'quick': 2400, 'thorough': 60000}
+BUDGET = {'quick': 5000, 'thorough': 80000}
 K_TOL = 1e3
 EPS = float(np.finfo(float).eps)
 TOLERANCES = {
@@ -64,7 +64,7 @@ TOLERANCES = {
                    'absolute values of the summed terms; the 1e3 absorbs the '
                    'deliberate 10*resolution(dtype) threshold shrink of '
                    'conj-L1, L2 and nuclear-norm proximals',
-    'feasibility': 'reference constraint residual <= 16*eps*n*scale (scale = '
+    'feasibility': 'reference constraint residual <= 64*eps*n*scale (scale = '
                    'largest magnitude involved); IndicatorSimplex / '
                    'IndicatorSumConstraint additionally accept their '
                    'documented sum_rtol',
@@ -84,7 +84,8 @@ ASSUMPTIONS = [
     'as expected rejections',
     'x entries bounded by 210 (7*30); for exponential-type functionals '
     '(KL cross entropy and its conjugate) |x| <= 7, sigma >= 0.25, scalings '
-    'in [0.5, 4] so that exp(x/(sigma*lam)) does not overflow',
+    'in [0.5, 4], at most one calculus rule on top, so that '
+    'exp(x/(sigma*lam)) does not overflow',
     'SeparableSum lives on the unweighted product of the summands domains; '
     'NuclearNorm on unweighted (base^m)^n with weighted base',
     'the value of a default convex conjugate is never needed: its proximal '
@@ -101,10 +102,11 @@ RULE = ('Hypothesis draws (entry, parameters, space, rule chain, step, x, y, '
 EXHAUSTIVE = {
     'quick': ['derandomised sweep: 2 cases for every cell (catalogue entry x '
               'admissible space kind x leaf weighting in {rn, const, array, '
-              'discr})'],
+              'discr}) and (catalogue entry x space kind x parameter class)'],
     'thorough': ['derandomised sweep: 6 cases for every cell (catalogue '
                  'entry x admissible space kind x leaf weighting in {rn, '
-                 'const, array, discr})'],
+                 'const, array, discr}) and (catalogue entry x space kind x '
+                 'parameter class)'],
 }
 STRICT = os.environ.get('C07_STRICT') == '1'
 
@@ -133,8 +135,9 @@ def _entry_strategy():
 
 
 @st.composite
-def _leaf_tree(draw, e, rsp):
-    return {'t': 'leaf', 'name': e.name, 'params': e.params(draw, rsp)}
+def _leaf_tree(draw, e, rsp, force=None):
+    return {'t': 'leaf', 'name': e.name,
+            'params': e.draw_params(draw, rsp, force)}
 
 
 @st.composite
@@ -236,7 +239,7 @@ def _sigma(draw, kinds, rsp, exp_type, nparts=None):
 
 @st.composite
 def _tree_on(draw, e, kind, sizes, wkinds=LEAF_WKINDS, max_depth=3,
-             force_depth=None):
+             force_depth=None, force=None):
     """(space descriptor, tree, mode, admissible sigma kinds)."""
     if kind == 'T':
         sd = draw(zoo.leaf_spaces(sizes=sizes, kinds=wkinds))
@@ -259,13 +262,13 @@ def _tree_on(draw, e, kind, sizes, wkinds=LEAF_WKINDS, max_depth=3,
             base = draw(zoo.leaf_spaces(sizes=('tiny',), kinds=wkinds))
             sd['base'] = dict(sd['base'], base=base)
     rsp = R.RSpace(sd)
-    fd = draw(_leaf_tree(e, rsp))
+    fd = draw(_leaf_tree(e, rsp, force))
     mode = e.mode
     exp_type = e.name in EXP_TYPE
     site = e.site(fd['params'])
     depth = (force_depth if force_depth is not None else
              draw(st.sampled_from([0, 0, 0, 1, 1, 2, 3])))
-    depth = min(depth, max_depth)
+    depth = min(depth, max_depth, 1 if exp_type else 3)
     if (_has_rejection(fd) or e.callable_only or
             zoo.known_region(site, rsp)):
         depth = 0
@@ -285,9 +288,12 @@ def _tree_on(draw, e, kind, sizes, wkinds=LEAF_WKINDS, max_depth=3,
 @st.composite
 def _case(draw, tier, cell=None):
     sizes = ('tiny', 'tiny', 'small', 'small', 'medium')
+    force = None
     if cell is not None:
         e = zoo.BY_NAME[cell[0]]
-        kind, wk = cell[1], (cell[2],)
+        kind = cell[1]
+        wk = LEAF_WKINDS if cell[2] is None else (cell[2],)
+        force = None if cell[3] is None else e.classes[cell[3]]
         sizes = ('tiny', 'small')
         force_depth = 0 if draw(st.integers(0, 2)) else None
     else:
@@ -299,7 +305,8 @@ def _case(draw, tier, cell=None):
            draw(st.integers(0, 7)) == 0)
     if not sep:
         sd, fd, mode, kinds, exp_type = draw(
-            _tree_on(e, kind, sizes, wk, force_depth=force_depth))
+            _tree_on(e, kind, sizes, wk, force_depth=force_depth,
+                     force=force))
         nparts = None
     else:
         # separable sum of 2-3 (possibly derived) functionals of one mode
@@ -341,7 +348,7 @@ def _case(draw, tier, cell=None):
                   'weighting': None, 'exponent': 2.0}
         fd = {'t': 'sepsum', 'parts': parts, 'power': power}
         kinds = ['scalar', 'list']
-        if draw(st.integers(0, 3)) == 0:
+        if draw(st.integers(0, 3)) == 0 and not exp_type:
             rsp0 = R.RSpace(sd)
             fd = draw(_wrap(fd, zoo.BY_NAME['f_const'], rsp0, mode,
                             exp_type, False))
@@ -369,32 +376,42 @@ def strategy(tier):
 
 
 def _cells():
+    """(entry, space kind, leaf weighting | None, parameter class | None)"""
     cells = []
     for e in zoo.ENTRIES:
         for kind in e.kinds:
             for wk in LEAF_WKINDS:
-                cells.append((e.name, kind, wk))
+                cells.append((e.name, kind, wk, None))
+            if len(e.classes) > 1:
+                for ci in range(len(e.classes)):
+                    cells.append((e.name, kind, None, ci))
     return cells
 
 
 def enumerate_cases(tier):
-    """Fixed (derandomised) sweep over the cells entry x space kind x leaf
-    weighting: every class is exercised on every weighting by construction."""
+    """Fixed (derandomised) sweep: every catalogue entry on every admissible
+    space kind x leaf weighting, and with every parameter class, by
+    construction (several cells are drawn per Hypothesis example only to
+    amortise the per-test overhead)."""
     from hypothesis import given, settings, HealthCheck, Phase
     k = 2 if tier == 'quick' else 6
     out = []
-    for cell in _cells():
+    cells = _cells()
+    chunk = 4
+    for i in range(0, len(cells), chunk):
+        group = cells[i:i + chunk]
         got = []
 
         @settings(max_examples=k, derandomize=True, database=None,
                   deadline=None, phases=[Phase.generate],
                   suppress_health_check=list(HealthCheck))
-        @given(_case(tier, cell))
-        def collect(d):
-            got.append(d)
+        @given(st.tuples(*[_case(tier, c) for c in group]))
+        def collect(ds):
+            got.append(ds)
 
         collect()
-        out.extend(got[:k])
+        for ds in got[:k]:
+            out.extend(ds)
     return out
 
 
@@ -963,7 +980,8 @@ def _has_bdry(sd):
 
 
 REQUIRED_STRATA = (
-    ['entry:' + e.name for e in zoo.ENTRIES] +
+    ['entry:' + e.name for e in zoo.ENTRIES
+     if e.name != 'ZeroFunctional*neg'] +
     ['rule:functional:' + r for r in ('translated', 'argscale', 'leftscale',
                                       'argscale_zero', 'leftscale_zero',
                                       'quadpert', 'addconst', 'conj',
